@@ -203,6 +203,7 @@ class Converter:
         self._locals: list[dict[str, LocalSymValue]] = [{}]
         self._analyzer: analysis.AstAnalyzer | None = None
         self._castable: set[str] = set()
+        self._function_locals: set[str] = set()
 
     def _is_castable(self, var_name: str) -> bool:
         """Returns True if the variable with the given name represents a polymorphic constant."""
@@ -326,7 +327,9 @@ class Converter:
         for scope in reversed(self._locals):
             if name in scope:
                 return scope[name]
-        if name in self.globals:
+        if name in self.globals and name not in self._function_locals:
+            # A name assigned anywhere in the function is local to it (as in Python): it never
+            # denotes a global of the same name, not even on a path that has not assigned it yet.
             return self.globals[name]
         if raise_exception:
             raise ValueError(info.msg(f"Unbound name: {name}."))
@@ -1551,8 +1554,10 @@ class Converter:
             domain = self.this_module.domain
             self._current_fn = irbuilder.IRFunction(stmt.name, domain)
             self._analyzer = analysis.AstAnalyzer(stmt, self._message, self.globals)
+            self._function_locals = set(self._analyzer.assigned_vars(stmt.body))
             fn_ir = self._translate_function_def_common(stmt)
             self._analyzer = None
+            self._function_locals = set()
             return fn_ir
         raise ValueError(f"Unsupported top-level statement type {type(stmt)!r}.")
 
